@@ -106,11 +106,20 @@ func TestC07(t *testing.T) {
 			return d.String() + "customctx=" + boolStr(custom) + " dst=" + dst + " expr " + expr.String() + " broken=" + broken
 		}
 		var fns []eval.ConfigFunc
+		var ctx *eval.Context
 		if custom {
-			fns = append(fns, eval.EvalContext(hx.NewCtx()))
+			ctx = hx.NewCtx()
+			fns = append(fns, eval.EvalContext(ctx))
 		}
 		var res qframe.QFrame
 		realExpr := expr.Build()
+		if custom && rapid.IntRange(0, 3).Draw(t, "reregister") == 0 {
+			// the context is used once while every user function is still a decoy of the same signature (returning zero
+			// values), then the real functions are registered under the same names: the next lookup finds those
+			hx.SetDecoys(ctx)
+			_ = hx.Safely(func() { _ = d.QF.Eval(dst, realExpr, fns...) })
+			hx.SetReal(ctx)
+		}
 		if rapid.IntRange(0, 3).Draw(t, "secondcall") == 0 {
 			// one Expression value used twice (first on a sibling frame with other temporaries in play): the second use counts
 			_ = hx.Safely(func() { _ = d.QF.Copy("const-temp-0", in.Cols[0].Name).Eval(dst, realExpr, fns...) })
